@@ -248,16 +248,6 @@ func (node *mastNode) store(
 			return hash, nil
 		}
 	}
-	storeQ <- func() error {
-		err = persist.Store(ctx, hash, encoded)
-		if err != nil {
-			return fmt.Errorf("persist store: %w", err)
-		}
-		if cache != nil {
-			cache.Add(cacheKey, node)
-		}
-		return nil
-	}
 	if node.dirty && node.source != nil && *node.source != hash {
 		fmt.Printf("expected node %s %v\n", *node.source, node.expected)
 		fmt.Printf("found    node %s %v\n", hash, node)
@@ -270,5 +260,17 @@ func (node *mastNode) store(
 	}
 	node.source = &hash
 	node.shared = true
+	// queue the write only now: the worker publishes the node in the shared cache, and whoever
+	// finds it there must see it marked shared and clean
+	storeQ <- func() error {
+		err = persist.Store(ctx, hash, encoded)
+		if err != nil {
+			return fmt.Errorf("persist store: %w", err)
+		}
+		if cache != nil {
+			cache.Add(cacheKey, node)
+		}
+		return nil
+	}
 	return hash, nil
 }
